@@ -12,7 +12,7 @@ from typing import Any, Dict, Iterable, List, Optional, Sequence, Tuple
 
 from harness import core, pipe_render
 
-PROCS = 8
+PROCS = int(os.environ.get("VERIF_PROCS", "8"))
 
 
 # ---------------------------------------------------------------------------------------------
@@ -50,6 +50,22 @@ def in_parallel(jobs: Sequence[Any]) -> List[Any]:
 
     with concurrent.futures.ThreadPoolExecutor(max_workers=max(1, len(jobs))) as pool:
         return list(pool.map(run, list(enumerate(jobs))))
+
+
+def must_include(item: Dict[str, Any]) -> bool:
+    """Two-slot items that are always run (also in the quick tier): slots that are known to interact."""
+    k = item.get("k")
+    if k == "layout":  # what precedes the first line x which failing statement ends the file
+        return True
+    if k == "docref":  # every role x every target shape, at the default place
+        return item.get("place") == "class"
+    if k == "class":  # a class constraining a primitive x its constructor
+        return item.get("bases") in ("prim_dbc", "prim_only") and str(item.get("ctor", "")).startswith("prim_init")
+    if k == "constset":  # item type of the set x shape of superset_of (primitive and enumeration-literal sets)
+        return item.get("elt") in ("int", "enum") and item.get("sup") in ("ok", "dup", "dup_apart")
+    if k == "cprim":  # a constrained primitive alone in a model without other invariants / verification functions
+        return item.get("base") == "bare"
+    return False
 
 
 def item_key(item: Dict[str, Any]) -> str:
